@@ -786,3 +786,276 @@ def tuple_default(ctx, res):
                "the dynamic Tuple default does not build per-object member "
                "defaults (default_value_for)")
     res.floor(1)
+
+
+# ---------------------------------------------------------------------------
+# C10.shareable-default: which member default kinds may be folded into one
+# shared constant default of a compound trait
+
+def _eval_kind_pred(mod, e, var, k, enum):
+    """evaluate a predicate over the default-value kind ``var`` for the enum
+    member value ``k``; None when not interpretable"""
+    def members(x):
+        # a literal or module-level collection of DefaultValue members
+        if isinstance(x, ast.Name):
+            for st in mod.tree.body:
+                if isinstance(st, ast.Assign) and any(
+                        isinstance(t, ast.Name) and t.id == x.id
+                        for t in st.targets):
+                    return members(st.value)
+            return None
+        if isinstance(x, ast.Call) and norm(x.func) in ("frozenset", "set",
+                                                         "tuple") and x.args:
+            return members(x.args[0])
+        if isinstance(x, (ast.Set, ast.Tuple, ast.List)):
+            out = set()
+            for el in x.elts:
+                v = value(el)
+                if v is None:
+                    return None
+                out.add(v)
+            return out
+        return None
+
+    def value(x):
+        if isinstance(x, ast.Name) and x.id == var:
+            return k
+        if isinstance(x, ast.Attribute) and norm(x.value) == "DefaultValue" \
+                and x.attr in enum:
+            return enum[x.attr]
+        if isinstance(x, ast.Constant) and isinstance(x.value, int):
+            return x.value
+        return None
+    if isinstance(e, ast.BoolOp):
+        vals = [_eval_kind_pred(mod, v, var, k, enum) for v in e.values]
+        if None in vals:
+            return None
+        return all(vals) if isinstance(e.op, ast.And) else any(vals)
+    if isinstance(e, ast.UnaryOp) and isinstance(e.op, ast.Not):
+        v = _eval_kind_pred(mod, e.operand, var, k, enum)
+        return None if v is None else not v
+    if isinstance(e, ast.Compare) and len(e.ops) == 1:
+        op, l, r = e.ops[0], e.left, e.comparators[0]
+        if isinstance(op, (ast.Eq, ast.NotEq, ast.Is, ast.IsNot)):
+            a, b = value(l), value(r)
+            if a is None or b is None:
+                return None
+            return (a == b) == isinstance(op, (ast.Eq, ast.Is))
+        if isinstance(op, (ast.In, ast.NotIn)):
+            a, ms = value(l), members(r)
+            if a is None or ms is None:
+                return None
+            return (a in ms) == isinstance(op, ast.In)
+    return None
+
+
+@rule("C10.shareable-default", ["C10"],
+      "Tuple and Union fold a member's default into one shared constant "
+      "default only for the kind `constant`: evaluated for every member of "
+      "DefaultValue, the deciding predicate is false for all other kinds "
+      "(list/dict/set templates, factories, ... are per object)")
+def shareable_default(ctx, res):
+    from .ctables import py_enum
+    repo = get_pyrepo(ctx)
+    T = "traits/trait_types.py"
+    mod = repo.module(T)
+    enum = py_enum(ctx, "traits/constants.py", "DefaultValue")
+    if "constant" not in enum or len(enum) < 8:
+        raise AnalysisError(f"DefaultValue members: {enum}")
+    sites = []
+    # BaseTuple.__init__: all(<pred> for dvt in ...) / not any(<pred> ...)
+    fn = repo.func(T, "BaseTuple.__init__")
+    for c in ast.walk(fn):
+        if isinstance(c, ast.Call) and norm(c.func) in ("all", "any") \
+                and c.args and isinstance(c.args[0], ast.GeneratorExp):
+            g = c.args[0]
+            if not isinstance(g.generators[0].target, ast.Name):
+                continue
+            var = g.generators[0].target.id
+            if "default" not in norm(g.generators[0].iter):
+                continue
+            neg = norm(c.func) == "any"
+            sites.append(("BaseTuple.__init__", g.elt, var, neg, c))
+    # Union.__init__: if <pred on first_default_value_type>: default = ...
+    fn = repo.func(T, "Union.__init__")
+    for i in ast.walk(fn):
+        if isinstance(i, ast.If) and i.orelse and any(
+                "DefaultValue.callable" in norm(s) for s in i.orelse):
+            names = [n.id for n in ast.walk(i.test) if isinstance(n, ast.Name)
+                     and "default_value_type" in n.id]
+            if names:
+                sites.append(("Union.__init__", i.test, names[0], False, i))
+    if len(sites) < 2:
+        raise AnalysisError(f"constant-default decisions not found "
+                            f"({[s[0] for s in sites]})")
+    for where, pred, var, neg, node in sites:
+        key = f"{where}:shareable"
+        res.instance(key, mod.loc(node), predicate=norm(pred), negated=neg)
+        wrong = []
+        for name, k in sorted(enum.items(), key=lambda kv: kv[1]):
+            v = _eval_kind_pred(mod, pred, var, k, enum)
+            if v is None:
+                raise AnalysisError(f"{where}: predicate `{norm(pred)}` not "
+                                    f"interpretable for {name}")
+            shareable = (not v) if neg else v
+            if shareable != (name == "constant"):
+                wrong.append(name)
+        res.oblige(not wrong, key, mod.loc(node),
+                   f"{where} treats member default kind(s) {wrong} as "
+                   f"{'shareable' if wrong and wrong != ['constant'] else 'per-object'}"
+                   f": a member with such a default (e.g. Set -> "
+                   f"trait_set_object) hands its template object to one "
+                   f"constant default shared by every instance")
+    res.floor(2)
+
+
+# ---------------------------------------------------------------------------
+# C10.private-instance-trait / cloned-set integrity
+
+class _StoreFlow(PyFlow):
+    """state: frozenset of local names currently bound to a fresh clone"""
+
+    def __init__(self, module, func):
+        super().__init__(module, func)
+        self.stores = []
+
+    @staticmethod
+    def _fresh(v):
+        t = norm(v)
+        return t.startswith("_clone_trait(") or t.startswith("CTrait(")
+
+    def classify(self, e, node):
+        if isinstance(e, ast.Assign):
+            return [("A", False)]
+        return []
+
+    def step(self, st, ev, e, node):
+        fresh = self._fresh(e.value) or (isinstance(e.value, ast.Name)
+                                         and e.value.id in st)
+        new = set(st)
+        for t in e.targets:
+            if isinstance(t, ast.Name):
+                (new.add if fresh else new.discard)(t.id)
+            if isinstance(t, ast.Subscript):
+                base = norm(t.value)
+                if base.endswith("_instance_traits()") or base in st and False:
+                    self.stores.append((e, fresh, node.id, st))
+                elif base in self.itables:
+                    self.stores.append((e, fresh, node.id, st))
+        return frozenset(new)
+
+
+@rule("C10.private-instance-trait", ["C10", "C08"],
+      "whatever Python code stores into an object's instance-trait dictionary "
+      "is a fresh clone on every path (handlers added later with _trait(name, "
+      "2) extend its notifier list in place); the `cloned` bookkeeping of the "
+      "metaclass is written only together with an actual clone")
+def private_instance_trait(ctx, res):
+    repo = get_pyrepo(ctx)
+    mod = repo.module(HT)
+    n = 0
+    for qual, fn in mod.functions.items():
+        # locals bound to the instance-trait dictionary
+        itables = {a.targets[0].id for a in ast.walk(fn)
+                   if isinstance(a, ast.Assign) and len(a.targets) == 1
+                   and isinstance(a.targets[0], ast.Name)
+                   and norm(a.value).endswith("._instance_traits()")}
+        direct = any(isinstance(a, ast.Assign) and any(
+            isinstance(t, ast.Subscript)
+            and norm(t.value).endswith("._instance_traits()")
+            for t in a.targets) for a in ast.walk(fn))
+        if not itables and not direct:
+            continue
+        fl = _StoreFlow(_DummyMod(), fn)
+        fl.itables = itables
+        fl.run(frozenset())
+        if not fl.stores:
+            continue
+        n += 1
+        res.instance(qual, mod.loc(fn), stores=len(fl.stores))
+        bad = [s for s in fl.stores if not s[1]]
+        res.oblige(not bad, f"{qual}:stores-clone",
+                   mod.loc(bad[0][0]) if bad else mod.loc(fn),
+                   f"{qual} stores `{norm(bad[0][0].value) if bad else ''}` "
+                   f"into the instance-trait dictionary on a path where it "
+                   f"is not a fresh clone: a CTrait shared with the caller, "
+                   f"another object or a class (e.g. the cached items-event "
+                   f"trait) becomes this object's instance trait and later "
+                   f"handler registrations mutate it for everybody",
+                   fl.witness_lines(bad[0][2], bad[0][3]) if bad else None)
+    if n == 0:
+        raise AnalysisError("no store into an instance-trait dictionary found")
+    # cloned-set integrity in the metaclass
+    upd = repo.func(HT, "update_traits_class_dict")
+    par = {}
+    for p_ in ast.walk(upd):
+        for c_ in ast.iter_child_nodes(p_):
+            par[id(c_)] = p_
+    adds = [c for c in ast.walk(upd) if isinstance(c, ast.Call)
+            and norm(c.func) == "cloned.add"]
+    res.instance("update_traits_class_dict:cloned", mod.loc(upd),
+                 adds=len(adds))
+    if not adds:
+        raise AnalysisError("update_traits_class_dict: cloned.add not found")
+    for c in adds:
+        st = par.get(id(c))
+        while st is not None and not isinstance(st, ast.stmt):
+            st = par.get(id(st))
+        body = getattr(par.get(id(st)), "body", [])
+        ok = any(isinstance(s, ast.Assign) and "_clone_trait(" in norm(s.value)
+                 for s in body)
+        res.oblige(ok, "update_traits_class_dict:cloned-means-cloned",
+                   mod.loc(c),
+                   f"`{norm(c)}` marks a trait as private to the class without "
+                   f"cloning it in the same block: handlers and defaults are "
+                   f"then attached to a CTrait object that another class may "
+                   f"share (the same module-level trait used in two classes)")
+    res.floor(2)
+
+
+@rule("C10.default-once", ["C10"],
+      "once the computed default has been stored in the instance dictionary "
+      "it stays there on every exit, including failing ones: the default "
+      "factory runs at most once per object and later reads return the same "
+      "object")
+def default_once(ctx, res):
+    facts = get_cfacts(ctx)
+    n = 0
+    for fname in facts.defined_functions():
+        fn = facts.func(fname)
+        from ..cexpr import callee
+        if not any(x.kind == "CallExpr" and callee(x) == "default_value_for"
+                   for x in fn.walk()):
+            continue
+        ps, _, g = paths_of(ctx, fname)
+        stored = 0
+        bad = None
+        for p in ps:
+            dv = None
+            st = None
+            for i, it in enumerate(p.trace):
+                if it[0] != "call":
+                    continue
+                if it[1] == "default_value_for":
+                    dv = it[3]
+                elif it[1] == "PyDict_SetItem" and dv and len(it[2]) == 3 \
+                        and it[2][2] == dv:
+                    st = (i, it[2][1])
+                    stored += 1
+                elif it[1] in ("PyDict_DelItem", "PyDict_Clear") and st \
+                        and (len(it[2]) < 2 or it[2][1] == st[1]):
+                    bad = (p, it[4])
+        if not stored:
+            continue
+        n += 1
+        res.instance(fname, facts.loc(fn), storing_paths=stored)
+        res.oblige(bad is None, f"{fname}:rolled-back",
+                   f"{CREL}:{bad[1]}" if bad else "",
+                   f"{fname} removes the default it has just stored (a "
+                   f"failing post_setattr or listener hook-up): the next read "
+                   f"runs the factory / _name_default again and returns a "
+                   f"different object than the one already handed to "
+                   f"post_setattr and the notifiers",
+                   [f"{CREL}:{l}" for l in dict.fromkeys(bad[0].lines) if l]
+                   if bad else None)
+    res.floor(2)
